@@ -222,7 +222,11 @@ def hash_none_stream(ctx):
 def run(ctx):
     rng = ctx.rng
     from props import cli_proc
-    cli_proc.stream(ctx, ['C01-header', 'C01-whole', 'C01-header-efile', 'C01-whole-efile', 'C01-header-efile1', 'C01-whole-efile1'])
+    cli_proc.stream(ctx, ['C01-header', 'C01-whole', 'C01-header-efile', 'C01-whole-efile', 'C01-header-efile1', 'C01-whole-efile1',
+                          'C01-header-dbname', 'C01-whole-dbname', 'C01-header-efilepath', 'C01-whole-efilepath',
+                          'C01-whole@structural_adaptive_ecc', 'C01-whole@saecc', 'C01-whole@protect', 'C01-whole@repair',
+                          'C01-header@header_ecc', 'C01-header@hecc',
+                          'C01-header-prefill', 'C01-whole-prefill', 'C01-header-prefixout', 'C01-whole-prefixout'])
     from props import toolrun_lib
     toolrun_lib.stream(ctx)
     hash_none_stream(ctx)
